@@ -87,6 +87,16 @@ def run(tier, wd):
                             "argv": [], "argv_hex": [hx(a) for a in argv], "spec": "[-o]..." if role == "opt" else "[A...]"}
                     cases.append(case)
                     meta.append(("cli", typ in V.MULTI))
+    # 1c. the empty string is a value like any other for the string types: as a separate token behind the option name, as an argument
+    for typ in ("string", "strings"):
+        for argv, toks in ((["-o", ""], [""]), (["--opt", ""], [""]), (["-o", "a", "--opt", "", "-o=c"], ["a", "", "c"]), (["-o", "", "-o", "b"], ["", "b"])):
+            cases.append({"type": typ, "role": "opt", "ptr": rnd.random() < 0.5, "default": V.DEFAULTS[typ][0], "envs": [], "cli": [t.encode().hex() for t in toks],
+                          "argv": [], "argv_hex": [a.encode().hex() if a else "" for a in argv], "spec": "[-o]..."})
+            meta.append(("cli", typ in V.MULTI))
+        for argv, toks in ((["", "b"], ["", "b"]), ([""], [""]), (["a", ""], ["a", ""])):
+            cases.append({"type": typ, "role": "arg", "ptr": False, "default": V.DEFAULTS[typ][0], "envs": [], "cli": [t.encode().hex() for t in toks],
+                          "argv": [], "argv_hex": [a.encode().hex() if a else "" for a in argv], "spec": "[A...]"})
+            meta.append(("cli", typ in V.MULTI))
     # 2. the library runs them and strconv says what each token is (trusted oracle for parsing itself)
     send = [{k: v for k, v in c.items() if not k.startswith("_")} for c in cases]
     results = core.run_harness(binpath, "values", send, wd)
